@@ -105,19 +105,28 @@ func (c *Ctx) calleesAt(site ssa.CallInstruction) []*ssa.Function {
 
 // reachPath does a BFS over the call graph from the given functions through
 // module functions only, and returns the call chain to the first function
-// whose short name is in targets (or nil).
+// whose short name is in targets (or nil). Calls through a func-typed PARAMETER
+// are resolved with one level of calling context: when a function was entered
+// through a call site that passes function literals, only those literals are
+// followed at the invocation of that parameter (the call graph alone would
+// merge the callbacks of every caller of an iterator such as ForEachBucket).
 func (c *Ctx) reachPath(from []*ssa.Function, targets map[string]bool, skip map[string]bool) []string {
 	g := c.graph()
 	type item struct {
 		f    *ssa.Function
+		site ssa.CallInstruction // the call through which f was entered (nil for roots)
 		prev *item
 	}
-	seen := map[*ssa.Function]bool{}
+	type key struct {
+		f    *ssa.Function
+		site ssa.CallInstruction
+	}
+	seen := map[key]bool{}
 	var queue []*item
 	for _, f := range from {
-		if f != nil && !seen[f] {
-			seen[f] = true
-			queue = append(queue, &item{f, nil})
+		if f != nil && !seen[key{f, nil}] {
+			seen[key{f, nil}] = true
+			queue = append(queue, &item{f, nil, nil})
 		}
 	}
 	for len(queue) > 0 {
@@ -138,11 +147,14 @@ func (c *Ctx) reachPath(from []*ssa.Function, targets map[string]bool, skip map[
 		if n == nil {
 			continue
 		}
-		// deterministic order
-		var outs []*ssa.Function
+		type out struct {
+			f    *ssa.Function
+			site ssa.CallInstruction
+		}
+		var outs []out
 		for _, e := range n.Out {
 			cf := e.Callee.Func
-			if cf == nil || seen[cf] || !inModulePkg(cf) {
+			if cf == nil || !inModulePkg(cf) {
 				continue
 			}
 			if c.cgMode == "cha" && e.Site != nil && !e.Site.Common().IsInvoke() && calleeOf(e.Site).Static == nil {
@@ -150,12 +162,44 @@ func (c *Ctx) reachPath(from []*ssa.Function, targets map[string]bool, skip map[
 				// (every func() in the program); such edges are followed under VTA only.
 				continue
 			}
-			seen[cf] = true
-			outs = append(outs, cf)
+			// invocation of a func-typed parameter: use the closures of the entering call site
+			if e.Site != nil && it.site != nil && !e.Site.Common().IsInvoke() && calleeOf(e.Site).Static == nil {
+				if p, isP := resolveCell(e.Site.Common().Value).(*ssa.Parameter); isP && p.Parent() == it.f {
+					idx := -1
+					for i, fp := range it.f.Params {
+						if fp == p {
+							idx = i
+						}
+					}
+					args := it.site.Common().Args
+					if calleeOf(it.site).Static == it.f && idx >= 0 && idx < len(args) {
+						if lit := closureOf(args[idx]); lit != nil {
+							if lit != cf {
+								continue // another caller's callback
+							}
+						}
+					}
+				}
+			}
+			// context is only kept where it matters: when the call passes a function literal
+			var ctxSite ssa.CallInstruction
+			if e.Site != nil {
+				for _, a := range e.Site.Common().Args {
+					if closureOf(a) != nil {
+						ctxSite = e.Site
+					}
+				}
+			}
+			k := key{cf, ctxSite}
+			if seen[k] {
+				continue
+			}
+			seen[k] = true
+			outs = append(outs, out{cf, ctxSite})
 		}
-		sort.Slice(outs, func(i, j int) bool { return shortFn(outs[i]) < shortFn(outs[j]) })
-		for _, cf := range outs {
-			queue = append(queue, &item{cf, it})
+		sort.Slice(outs, func(i, j int) bool { return shortFn(outs[i].f) < shortFn(outs[j].f) })
+		for _, o := range outs {
+			queue = append(queue, &item{o.f, o.site, it})
 		}
 	}
 	return nil
